@@ -119,7 +119,7 @@ def go_run(chk, test, env, hooks, race, tag):
     ov = vlib.overlay_for(mapping(hooks), wd)
     e = {"VERIF_OBS": obs}
     e.update(env)
-    rc, out = vlib.go_test(PKG, "^%s$" % test, ov, e, race=race, timeout=1500)
+    rc, out = vlib.go_test(PKG, "^%s$" % test, ov, e, race=race, timeout=300 if chk.tier == "quick" else 1500)
     if rc != 0:
         if "DATA RACE" in out:
             return obs, out
@@ -171,7 +171,9 @@ def signature(name, f, lines):
         req = {x["r"]: x["a"] for x in info.get("req", [])}
         # one primary kind (a single defect shows up in many combinations): a requested route absent from the
         # table > a route the peer still holds although it is not requested > wrong attributes
-        if any(r not in tbl for r in req):
+        if any(a == "?aspath" for a in tbl.values()):
+            kind = "aspath"      # an announced route carries an AS_PATH of the wrong width / content
+        elif any(r not in tbl for r in req):
             kind = "missing"
         elif any(r not in req for r in tbl):
             kind = "stale"
@@ -180,17 +182,25 @@ def signature(name, f, lines):
         else:
             kind = "none"
         return "%s|kind=%s|conn=%s" % (name, kind, "first" if info.get("first") else "later")
+    if name == "C16.SessionAsPathWidth":
+        return "%s|cap65=%s|ibgp=%s" % (name, str(bool(info.get("cap65"))).lower(), str(bool(meta.get("ibgp"))).lower())
+    if name in ("C17.NoSpuriousReset", "C16.SessionSpuriousReset"):
+        return "%s|pipelined=%s" % (name, str(bool(info.get("pipe"))).lower())
     return "%s|at=%s" % (name, info.get("pt"))
 
 
-def summarize(obs_path, fails):
-    """Split the judge's output into verdict failures (C17.*) and drift, per run."""
+def summarize(obs_path, fails, prefix="C17."):
+    """Split the judge's output into verdict failures (names with the prefix of the property being checked) and
+    drift, per run.  Names of the other property (C16.* aliases in a C17 run and vice versa) are left out."""
     runs, order = load_runs(obs_path)
     verdict, drift = {}, {}
     for f in fails:
         w = f["w"]
         for name in f["fails"]:
-            (verdict if name.startswith("C17.") else drift).setdefault(w, []).append((name, f))
+            if name.startswith(prefix):
+                verdict.setdefault(w, []).append((name, f))
+            elif name.startswith("DRIFT."):
+                drift.setdefault(w, []).append((name, f))
     return runs, order, verdict, drift
 
 
@@ -249,7 +259,7 @@ def report_drift(chk, drift, runs, tag):
 
 # --------------------------------------------------------------------------- confirmation
 
-def confirm(chk, hooks, verdict, runs, scheds, race):
+def confirm(chk, hooks, verdict, runs, scheds, race, prefix="C17."):
     """Re-execute every failing run (at most a few per signature) up to CONFIRM_TRIES times; a failure is
     reported when the same predicate fails again with the same signature."""
     per_sig = {}
@@ -270,13 +280,13 @@ def confirm(chk, hooks, verdict, runs, scheds, race):
                     with open(sp, "w") as fh:
                         fh.write(json.dumps(scheds[w]) + "\n")
                     obs, _ = gated(chk, sp, race, tag=tag, par=1)
-                    scenario = {"family": "session", "mode": "gated", "schedule": scheds[w]}
+                    scenario = {"family": "session", "side_family": "fam_session", "mode": "gated", "schedule": scheds[w]}
                 else:
                     seed = int(w[1:].split("_")[0])
                     obs, _ = stress(chk, hooks, 1, race, tag=tag, only=w, seed=seed, par=1)
-                    scenario = {"family": "session", "mode": "stress", "id": w, "seed": seed}
+                    scenario = {"family": "session", "side_family": "fam_session", "mode": "stress", "id": w, "seed": seed}
                 fails2, _ = judge(chk, obs, tag)
-                runs2, _, verdict2, _ = summarize(obs, fails2)
+                runs2, _, verdict2, _ = summarize(obs, fails2, prefix)
                 again = [(nm, ff) for nm, ff in verdict2.get(w, []) if signature(nm, ff, runs2[w]) == sig]
                 if again:
                     nm, ff = again[0]
@@ -390,9 +400,43 @@ def run(chk):
         "attempts accepted after Close returned, on anything received on a connection whose OPEN the peer answered only after "
         "Close returned (slow handshake: it was sent in reaction to that answer), and on closed=TRUE read under s.mu at the "
         "hook's write/install points; a Close (or Set) that is still blocked on s.mu while the handshake is pending is not judged",
-        "an abort of a connection the peer did not drop (e.g. by a stale reader) is reported as DRIFT, not as a violation: the "
-        "statement does not forbid extra reconnections",
+        "NoSpuriousReset: an end of stream the peer sees is explained only by its own drop (no eof line is logged then), a wrong "
+        "ASN it presented, or a Close call that has begun; the peer's OPEN varies per connection (capability 65, MP "
+        "capabilities, hold time 0/3/30 s) and in 30 % of the connections OPEN, KEEPALIVE, a 4096-octet UPDATE and a KEEPALIVE "
+        "leave in one write; AS_PATH must be the intended one in the width announced on that connection",
     ]
+
+
+def run_side(chk):
+    """Side run for C16 (called by bin/check after fam_wire): two defects of the wire property are only visible
+    through connect() with a live peer - the AS_PATH width must follow the capability the peer announced on THIS
+    connection, and reading the peer's OPEN must not swallow octets the peer pipelined behind it.  A small batch of
+    the stress runs (the scripted peer varies its OPEN per connection and pipelines in 30 % of them); only the
+    C16.* names of spec/BGPSessionTrace.tla are reported."""
+    if chk.prop != "C16":
+        return
+    hooks = hooks_present()
+    runs_n = 60 if chk.tier == "quick" else 400
+    obs, out = stress(chk, hooks, runs_n, False, tag="side16", par=12)
+    fails, nlines = judge(chk, obs, "side16")
+    runs, order, verdict, _ = summarize(obs, fails, "C16.")
+    bad = [w for w in order if runs[w][-1].get("k") != "end" or runs[w][-1].get("status") != "ok"]
+    if len(bad) > MAX_INCONCLUSIVE_RUNS * max(1, len(order)):
+        raise vlib.Inconclusive("session side run: %d of %d runs ended on a harness time limit" % (len(bad), len(order)))
+    chk.cov["session_side_runs"] = len(order)
+    chk.cov["session_side_lines"] = nlines
+    chk.cov["session_side_updates_checked"] = sum(1 for w in order for o in runs[w] if o["k"] == "msg" and o.get("t") == "upd")
+    chk.cov["session_side_connections"] = {
+        "cap65": sum(1 for w in order for o in runs[w] if o["k"] == "sentopen" and o.get("cap65")),
+        "no_cap65": sum(1 for w in order for o in runs[w] if o["k"] == "sentopen" and not o.get("cap65")),
+        "pipelined": sum(1 for w in order for o in runs[w] if o["k"] == "sentopen" and o.get("pipe"))}
+    chk.cov["traces_validated_against_impl"] += len(order) - len(bad)
+    chk.cov["evaluations"] += nlines
+    chk.assumptions.append("session side run: AS_PATH of every UPDATE a live session sends must be the intended one in the width "
+                           "the peer announced on that connection (4 octets iff its OPEN carried capability 65); a session that "
+                           "resets a connection on which the peer pipelined messages behind its OPEN has read beyond the OPEN")
+    if verdict:
+        confirm(chk, hooks, verdict, runs, {}, False, prefix="C16.")
 
 
 def replay(chk, path):
@@ -413,7 +457,7 @@ def replay(chk, path):
     for k in range(CONFIRM_TRIES):
         obs = runner(k)
         fails, nlines = judge(chk, obs, "replay%d" % k)
-        runs, order, verdict, drift = summarize(obs, fails)
+        runs, order, verdict, drift = summarize(obs, fails, chk.prop + ".")
         chk.cov["evaluations"] += nlines
         chk.cov["traces_validated_against_impl"] += len(order)
         chk.cov["states"] = chk.cov["transitions"] = chk.cov["evaluations"]
